@@ -74,6 +74,7 @@ func obsMeta(v *meta_leaseset.MetaLeaseSet, withOptions bool) []byte {
 // H_C08_Composites: LeaseSet2 and MetaLeaseSet (identity, keys, leases/entries, offline block, signature; the whole serialisation when options and properties are empty), EncryptedLeaseSet, legacy LeaseSet, Signature, OfflineSignature and leases do not change when the input buffer is overwritten after parsing.
 //
 //verif:props C08
+//verif:policies tight runtime
 //verif:witness accepted
 func H_C08_Composites() {
 	switch nd.IntRange(0, 6) {
